@@ -530,6 +530,19 @@ acquire_start(struct AcquireRuntime* self_)
     self->state = DeviceState_Running;
     return AcquireStatus_Ok;
 Error:
+    // Wind down the workers that were already started. A source thread tells
+    // its filter and sink to stop when it exits; where no source thread runs
+    // they have to be told here.
+    for (int i = 0; i < countof(self->video); ++i) {
+        if (((self->valid_video_streams >> i) & 1) == 0)
+            continue;
+        struct video_s* video = self->video + i;
+        if (!video->source.is_running) {
+            video->filter.is_stopping = 1;
+            video->sink.is_stopping = 1;
+        }
+    }
+    acquire_abort(self_);
     for (int i = 0; i < countof(self->video); ++i) {
         if (((self->valid_video_streams >> i) & 1) == 0) {
             TRACE("(Abort) Skipping disabled video stream %d", i);
